@@ -114,7 +114,8 @@ VI(root, S0, v, D) ==
                                  LET p == PropOf(S0, v.m[i][1]) IN
                                  IF ~p.req /\ p.s.k = "nullable" /\ v.m[i][2].t = "null" THEN ~("Dev_NullEmptyStructRefused" \in D /\ IsEmptyStruct(p.s.s)) /\ ("Dev_NullableEnumAcceptsNull" \in D \/ NullListed(p.s.s)) ELSE VI(root, p.s, v.m[i][2], D)
                             ELSE IF S0.addl.k = "addl_true" THEN TRUE ELSE IF S0.addl.k = "addl_false" THEN FALSE ELSE VI(root, S0.addl, v.m[i][2], D)
-                       /\ Len(v.m) >= S0.minP /\ (S0.maxP # NONE => Len(v.m) <= S0.maxP)
+                       \* (C04) members the type drops were counted when the value was read
+                       /\ (("Dev_DroppedMembersCounted" \in D /\ S0.addl.k = "addl_true") \/ Len(v.m) >= S0.minP) /\ (S0.maxP # NONE => Len(v.m) <= S0.maxP)
     [] S0.k = "allOf" -> \A i \in 1..Len(S0.ss) : VI(root, S0.ss[i], v, D)
     [] S0.k = "anyOf" -> \E i \in 1..Len(S0.ss) : VI(root, S0.ss[i], v, D)
     [] S0.k = "oneOf" -> LET exact == Cardinality({i \in 1..Len(S0.ss) : VI(root, S0.ss[i], v, D)}) = 1
@@ -202,7 +203,10 @@ Wide(n) == Obj([i \in 1..n |-> P(Letters[i], AnyInt, i \in {1, 8, 9, n})], AF, 0
 Schemas == StrSchemas \cup IntSchemas \cup NumSchemas \cup ArrSchemas \cup ObjSchemas \cup SumSchemas \cup {Bool, Nullable(Bool), AnyS, Wide(9), Wide(17)}
 
 (****************************** instance domain ****************************)
-Leaves == {Null, B(TRUE), B(FALSE), N(0), N(10), N(20), N(30), N(40), N(5), N(15), N(1), N(0 - 10), N(0 - 20), N(0 - 30), N(0 - 60), N(0 - 160), S(<<>>), S(<<"a">>), S(<<"a", "a">>), S(<<"a", "a", "a">>), S(<<"b">>), S(<<"a", "b">>), S(<<"b", "b">>), S(<<"e">>)}
+Leaves == {Null, B(TRUE), B(FALSE), N(0), N(10), N(20), N(30), N(40), N(5), N(15), N(1), N(0 - 10), N(0 - 20), N(0 - 30), N(0 - 60), N(0 - 160), S(<<>>), S(<<"a">>), S(<<"a", "a">>), S(<<"a", "a", "a">>), S(<<"b">>), S(<<"a", "b">>), S(<<"b", "b">>), S(<<"e">>),
+           \* strings the JSON codec has to escape or pass through: each symbol is one character
+           \* (quote, backslash, line feed, NUL, U+2028, an astral character, U+00E9, '<')
+           S(<<"quote">>), S(<<"bslash", "a">>), S(<<"nl">>), S(<<"nul", "b">>), S(<<"ls">>), S(<<"astral", "ee">>), S(<<"lt", "quote", "bslash">>)}
 Small == {Null, N(10), N(5), S(<<"a">>), S(<<"a", "a">>), N(20)}
 Arrays == {A(<<>>)} \cup {A(<<x>>) : x \in Leaves} \cup {A(<<x, y>>) : x \in Small, y \in Small} \cup {A(<<N(10), N(20), N(30)>>), A(<<A(<<N(10)>>)>>), A(<<A(<<N(10), N(20)>>)>>), A(<<S(<<"a">>), S(<<"a">>), S(<<"b">>)>>)}
 Keys == {"a", "b", "c"}
